@@ -32,6 +32,15 @@ def run(ctx):
     r04_2(ctx)
     r04_3(ctx)
     r04_4(ctx)
+    # "each subscriber observes values in that order ... and ends on the final value": needs the version protocol and no lost wake-up
+    from . import c01, groups
+    closes = find_close_fn(F)
+    notify = find_notify_fn(F)
+    if len(closes) == 1 and len(notify) == 1:
+        init = c01.r01_5(ctx, notify[0], closes[0], closes[0][2])
+        c01.r01_6(ctx, init)
+        c01.r01_7(ctx, init)
+    groups.eyeball_close_and_wake(ctx)
 
 
 def r04_1(ctx):
